@@ -165,6 +165,30 @@ pub proof fn lemma_membership_sound<TC: Configuration>(t: Trie, hash_val: AzksVa
         }
     }
 }
+// L-MEM-ROOT (after the repair of D15): when the trie's root carries the root label and the fold ends AT the root label - the two facts
+// `mem_ok` now demands - the k >= 1 caveat of L-MEM disappears: the proof's label is the label of a node of t for EVERY k, also for a
+// proof without sibling proofs (whose label must then be the root label itself).
+// alarm: C05
+pub proof fn lemma_membership_sound_at_root<TC: Configuration>(t: Trie, hash_val: AzksValue, label: NodeLabel, sibs: Seq<SiblingProof>, k: int)
+    requires
+        parent_injective::<TC>(), label_value_injective::<TC>(), t_wf(t), leaves_separated::<TC>(t),
+        0 <= k <= sibs.len(),
+        is_root(t_label(t)),
+        is_root(fold_mp::<TC>(hash_val, label, sibs, k).1),
+        fold_mp::<TC>(hash_val, label, sibs, k).0 == t_hash::<TC>(t),
+    ensures
+        exists|s: Trie| #[trigger] t_sub(t, s) && t_hash::<TC>(s) == hash_val && t_label(s) == label
+{
+    if k == 0 {
+        assert(fold_mp::<TC>(hash_val, label, sibs, 0) == (hash_val, label));
+        lemma_root_unique(label, t_label(t));
+        assert(t_sub(t, t) && t_hash::<TC>(t) == hash_val && t_label(t) == label);
+    } else {
+        lemma_membership_sound::<TC>(t, hash_val, label, sibs, k);
+        let s = choose|s: Trie| #[trigger] t_sub(t, s) && t_hash::<TC>(s) == hash_val && (k >= 1 ==> t_label(s) == label);
+        assert(t_sub(t, s) && t_hash::<TC>(s) == hash_val && t_label(s) == label);
+    }
+}
 // L-NONMEM: a non-membership proof with the structural facts of the verifier's contract (nm_struct) whose anchor is a node of the trie
 // (fold of the anchor's membership proof == hash of t) proves that the queried label is NOT a leaf of t.
 // alarm: C05
